@@ -78,6 +78,42 @@ type Host struct {
 	starts     []startRec
 	inner      raftio.ILogDB
 	Restarts   int
+	// armed crash point (0 none, 1 PreSave, 2 PostSave) and its notification
+	armed   int32
+	armedCh chan struct{}
+}
+
+// ArmCrash makes the host lose power the next time one of its replicas
+// reaches the given step-worker point (1 = just before SaveRaftState, 2 = just
+// after it returned). The returned channel is closed at the crash instant.
+func (h *Host) ArmCrash(point int32) <-chan struct{} {
+	h.mu.Lock()
+	defer h.mu.Unlock()
+	h.armedCh = make(chan struct{})
+	atomic.StoreInt32(&h.armed, point)
+	return h.armedCh
+}
+
+// Disarm removes an armed crash point; returns true if it had not fired.
+func (h *Host) Disarm() bool {
+	return atomic.SwapInt32(&h.armed, 0) != 0
+}
+
+// AtPoint is called from the step worker hooks.
+func (h *Host) AtPoint(point int32) {
+	if atomic.LoadInt32(&h.armed) != point {
+		return
+	}
+	if !atomic.CompareAndSwapInt32(&h.armed, point, 0) {
+		return
+	}
+	h.CrashInstant()
+	h.mu.Lock()
+	ch := h.armedCh
+	h.mu.Unlock()
+	if ch != nil {
+		close(ch)
+	}
 }
 
 type startRec struct {
@@ -379,6 +415,18 @@ func (h *Host) StartReplica(members map[uint64]dragonboat.Target, join bool, kin
 	h.starts = append(h.starts, s)
 	h.mu.Unlock()
 	return nil
+}
+
+// NodeHost returns the present NodeHost of the host (nil while it is down).
+func (h *Host) NodeHost() *dragonboat.NodeHost { return h.nodeHost() }
+
+// RestartReplica starts a replica that was stopped with StopReplica /
+// StopShard again (it stays on the restart list of the host).
+func (h *Host) RestartReplica(members map[uint64]dragonboat.Target, kind SMKind, cfg config.Config) error {
+	if h.nodeHost() == nil {
+		return fmt.Errorf("host %d is down", h.Index)
+	}
+	return h.startReplica(startRec{shardID: cfg.ShardID, replicaID: cfg.ReplicaID, members: members, kind: kind, cfg: cfg}, true)
 }
 
 // ForgetReplica removes a replica from the restart list (after StopReplica /
